@@ -1,6 +1,101 @@
-(* C09 (under construction) *)
-From Coq Require Import List Arith.
-From YP Require Import Base.Str Lang.Ast Comp.IR Comp.CompileBody Comp.CompileTotal.
-Theorem C09_compile_body_total : forall b cnt, exists code cnt', comp (fuel_body b) b cnt = Some (code, cnt').
-Proof. exact comp_total_exists. Qed.
-Print Assumptions C09_compile_body_total.
+(* C09 - call/N, once/1, findall/3, = and \= agree with their standard definitions.
+   Only statements; proofs are `exact <lemma>`.  `builtin call` is the engine's table of builtin
+   predicates over an arbitrary resolution function `call` (YP.query one level down); it is the SAME
+   function in the model of the compiled code (Machine.query) and in the reference (solveA). *)
+From Coq Require Import String.
+From Coq Require Import List Arith ZArith.
+Import ListNotations.
+From YP Require Import Base.Str Term.Term Term.Fast Unify.Unify Unify.Fast Lang.Ast Comp.IR Comp.CompileBody Comp.CompileClause
+  Sem.Res Sem.RefSem Sem.IRSem Sem.ControlCorrect Sem.Machine Sem.ClauseSem Sem.ProgramCorrect Sem.SpecLemmas.
+Local Open Scope string_scope.
+Local Open Scope list_scope.
+
+(* programs that use the builtins are covered by the program theorem: a goal whose name/arity has no
+   clause resolves to the builtin table in both semantics *)
+Theorem C09_compiled_program_computes_reference : forall n p ir,
+  compile_program p = Some ir -> good_program p ->
+  forall name args s, query n ir name args s = solveA n p name args s.
+Proof. exact machine_computes_clause_semantics. Qed.
+Print Assumptions C09_compiled_program_computes_reference.
+
+(* the builtins depend on the program only through the answers of the goals they call *)
+Theorem C09_builtin_extensional : forall call call',
+  (forall f a s, call f a s = call' f a s) -> forall name args s, builtin call name args s = builtin call' name args s.
+Proof. exact builtin_ext. Qed.
+Print Assumptions C09_builtin_extensional.
+
+(* call(G,A1..An): G is dereferenced through any chain of bound variables (den_fast = deep get_value);
+   compound goal: its answers are those of name(G)(args(G) ++ A1..An); atom goal: of name(G)(A1..An) *)
+Theorem C09_call_spec_compound : forall call g extra s f gargs, den_fast (sto s) g = TFun f gargs ->
+  builtin call (s_ "call") (g :: extra) s = Some (call f (gargs ++ extra) s).
+Proof. exact call_spec_fun. Qed.
+Print Assumptions C09_call_spec_compound.
+
+Theorem C09_call_spec_atom : forall call g extra s a, den_fast (sto s) g = TAtom a ->
+  builtin call (s_ "call") (g :: extra) s = Some (call a extra s).
+Proof. exact call_spec_atom. Qed.
+Print Assumptions C09_call_spec_atom.
+
+(* once(G): the first answer of G only; no answer and NO error when G has none *)
+Theorem C09_once_spec : forall call g s,
+  builtin call (s_ "once") [g] s =
+  Some (match call_goal call g [] s with (x :: _, _) => ([x], false) | ([], e) => ([], e) end).
+Proof. exact once_spec. Qed.
+Print Assumptions C09_once_spec.
+
+(* findall(T,G,L): when G's enumeration ends without error with answer states xs, the answers are those
+   of unifying L with the list of the collected instances of T - one per answer, in order - computed from
+   the store of the call: no binding made by G survives *)
+Theorem C09_findall_spec : forall call t g l s xs,
+  call_goal call g [] s = (xs, false) ->
+  builtin call (s_ "findall") [t; g; l] s =
+  Some (let '(es, b) := collect (nxt s) (nxt s) t xs in unify_st {| sto := sto s; nxt := b |} l (mk_list es)).
+Proof. exact findall_spec. Qed.
+Print Assumptions C09_findall_spec.
+
+Theorem C09_findall_one_instance_per_answer : forall lo t xs base, length (fst (collect lo base t xs)) = length xs.
+Proof. exact collect_length. Qed.
+Print Assumptions C09_findall_one_instance_per_answer.
+
+(* the collected instances are the instances of T under each answer, in order; only variables that were
+   created while the answer was computed (cells >= lo) are renamed, to fresh ones *)
+Theorem C09_findall_instances : forall lo t xs base,
+  (forall x, In x xs -> forall v, occurs v (den_fast (sto x) t) = true -> v < lo) ->
+  fst (collect lo base t xs) = map (fun x => den_fast (sto x) t) xs.
+Proof. exact collect_older. Qed.
+Print Assumptions C09_findall_instances.
+
+Theorem C09_findall_at_most_once : forall call t g l s r,
+  builtin call (s_ "findall") [t; g; l] s = Some r -> length (fst r) <= 1.
+Proof. exact findall_at_most_once. Qed.
+Print Assumptions C09_findall_at_most_once.
+
+(* X = Y has the answers of unification (C02) *)
+Theorem C09_eq_spec : forall call a b s, builtin call (s_ "=") [a; b] s = Some (unify_st s a b).
+Proof. exact eq_spec. Qed.
+Print Assumptions C09_eq_spec.
+
+(* X \= Y succeeds once, with the unchanged state, exactly when X and Y do not unify *)
+Theorem C09_neq_spec : forall call a b s,
+  builtin call (s_ "\=") [a; b] s =
+  Some (match unify_fast ufuel (sto s) a b with UOk _ => ([], false) | UFail => ([s], false) | _ => ([], true) end).
+Proof. exact neq_spec. Qed.
+Print Assumptions C09_neq_spec.
+
+(* non-vacuity:  t(L) :- G = q(X), findall(X, call(G), L).   q(a). q(b).   gives L = [a,b] *)
+Definition findall_prog : program :=
+  [ {| c_name := d "t"; c_args := [SVar (d "L")];
+       c_body := BAnd (BCall (d "=") [SVar (d "G"); SFun (d "q") [SVar (d "X")]])
+                      (BCall (d "findall") [SVar (d "X"); SFun (d "call") [SVar (d "G")]; SVar (d "L")]) |};
+    {| c_name := d "q"; c_args := [SAtom (d "a")]; c_body := BTrue |};
+    {| c_name := d "q"; c_args := [SAtom (d "b")]; c_body := BTrue |} ].
+Example C09_nonvacuous :
+  good_program findall_prog /\
+  exists ir, compile_program findall_prog = Some ir /\
+  map (fun x => den (sto x) (TVar 0)) (fst (query 10 ir (d "t") [TVar 0] {| sto := []; nxt := 1 |}))
+  = [mk_list [TAtom (d "a"); TAtom (d "b")]].
+Proof.
+  split.
+  - repeat constructor.
+  - eexists. split; [vm_compute; reflexivity|]. vm_compute. reflexivity.
+Qed.
